@@ -567,6 +567,31 @@ def check_long(case, out):
                         viol("outcome-differs: lock-step", position=k, query="p_next", warm=a, other=ref)
                     elif a[0] == "ok" and not same(a[1], ref[1]):
                         viol("answer-differs: lock-step", position=k, query="p_next", warm=a[1], other=ref[1])
+    # the decoding loop of a caller that keeps ONE list and appends to it in place: the answer depends on the list's contents at the
+    # time of the call, not on the list object (strengthened after seeded change C05-12)
+    if kind in LMS:
+        st, a_obj = call(build, kind, bridge.to_cfg(g, sr))
+        st2, r_obj = call(build, kind, bridge.to_cfg(g, sr))
+        if st == "ok" and st2 == "ok":
+            buf = []
+            zero = _zero_of(a_obj)
+            for k in range(min(L, 10) + 1):
+                try:
+                    a = ("ok", view_mapping(a_obj.p_next(buf), zero))
+                except bridge.Timeout:
+                    raise
+                except TypeError:
+                    break           # this back end wants hashable contexts (CKYLM): list contexts are outside its interface
+                except Exception as e:  # noqa: BLE001
+                    a = ("exc", type(e).__name__)
+                ref = query(kind, r_obj, ("p_next", tuple(buf)))[0]
+                out["n"] += 1
+                if a[0] != ref[0] and not (a[0] == "exc" and ref[0] == "exc"):
+                    viol("outcome-differs: list context grown in place", position=k, query="p_next", warm=a, other=ref)
+                elif a[0] == "ok" and not same(a[1], ref[1]):
+                    viol("answer-differs: list context grown in place", position=k, query="p_next", warm=a[1], other=ref[1])
+                if k < L:
+                    buf.append(ctx[k])
     if any(v[0] == "ok" and v[1] for v in got.values()):
         out["keys"].append(sig(case["name"], kind, "long", L))
 
